@@ -66,7 +66,8 @@ CLAIMED = {
                 "exported, instantiated with concrete payloads (15 NumPy dtypes incl. complex, "
                 "datetime, strings, structured, big-endian; 0-d/empty/non-contiguous arrays; 8 tensor "
                 "dtypes), saved/loaded/re-saved/re-loaded under zip and dir stores, compression "
-                "None/0..9, str/Path targets, modes w/o, and compared with the model's expected value.",
+                "None/0..9, str/Path targets, modes w/o, and compared with the model's expected value."
+                " A second module, SerializerHistory.tla (file system as the only state; Save/Load of two objects on one path with str or pathlib.Path spelling and both modes; LoadReturnsLastSaved, WriteOnce; negative control = a cache keyed by the spelling), is exhaustively enumerated to 4 calls (10 000 histories) and replayed in both stores.",
         "note": "Trusted: TLC, the harness instantiation/comparison (harness/serial_common.py), zarr/"
                 "Blosc/torch/dill byte fidelity. Bounded graph universe; rng/loggers only as "
                 "attributes; reserved names and '/' excluded as the property states.",
@@ -134,7 +135,8 @@ CLAIMED = {
                 "actions, simulated to 8-12) are replayed on real datasets with 7 dtypes: class, shape, "
                 "origin, sampling, units and the data rebuilt from the bags are compared after every "
                 "action, every other live object is re-hashed, in-place and copying variants are "
-                "compared.",
+                "compared."
+                " Axis-keyed arguments are mappings in the model and are listed ascending / descending / rotated in the replay; the index semantics includes NumPy's syntactic separation by an Ellipsis that expands to no axis.",
         "note": "Trusted: TLC, the replayer's bag-to-array reconstruction (einsum with count matrices), "
                 "NumPy indexing itself. Resample re-bases the data model (values decided by C06).",
         "technique": "TLA+ model checked by TLC; TLC behaviours with post-states replayed into the "
@@ -185,7 +187,8 @@ CLAIMED = {
                 "their exact centres, integer-plane origins and rolled patterns are fed to the origin model "
                 "(every batch size 1..N, None, >N), the dataset model (vectorised and looped), get_com_2d "
                 "(numpy, torch), fit_origin_background / fit_origin (plane, constant) and "
-                "shift_origin_to; results are compared with the model's values.",
+                "shift_origin_to; results are compared with the model's values."
+                " The model also carries the index of the fitted origin each pattern of a batch is shifted by (ShiftScheduleIndependent; negative control: short last batch) and TableStable (measured origins are write-once); the replay shifts with every batch size and runs the workflow as a history on one object.",
         "note": "Trusted: TLC arithmetic, float32 tolerance 2e-5 px on small-integer inputs. Detector masks "
                 "are not reachable through public preprocessing and are not exercised.",
         "technique": "TLA+ exact-arithmetic oracle with batch-schedule state machine checked by TLC; "
@@ -222,7 +225,8 @@ CLAIMED = {
                 "propagate-and-back), integer shift = circular roll, and invariant total intensity. Pipeline "
                 "laws on fixtures with 1-3 slices, 1-3 modes, fractional positions and padding: pure-phase "
                 "objects conserve the probe intensity in every pattern; fourier_projection is idempotent "
-                "and yields the measured amplitudes (zeros included).",
+                "and yields the measured amplitudes (zeros included)."
+                " Part B also has tilted propagation steps taken from ONE stack of unequal slice thicknesses (a slice's kernel depends on its own thickness only), the Fourier projection is exercised on odd / non-square waves for 1-3 modes, and the index lemma CentringInverse (fftshift is its own inverse exactly for even lengths) is checked by TLC.",
         "note": "Trusted: TLC, the synthetic fixture; numeric tolerance 2e-4 relative. Fresnel kernels come "
                 "from probe_model._compute_propagator_arrays (no public wrapper).",
         "technique": "TLA+ exact index algebra and group-action model checked by TLC; exported cases/walks "
@@ -239,7 +243,8 @@ CLAIMED = {
                 "upsampling 1..3, aberration / rotation / filter variants and EVERY batch size 1..num_bf "
                 "(and larger), a repeated call, linearity on two integer stacks, recombination of "
                 "complementary sub-masks weighted by aperture weights, zero-aberration parallax = sum of "
-                "mean-subtracted images / W, and defocused parallax = TLC's rolled images.",
+                "mean-subtracted images / W, and defocused parallax = TLC's rolled images."
+                " HyperState.tla models the hyper-parameter layers (construction / optimized / per-call override, explicit zeros, rotation) with OverrideWins, RestFromBelow, RotationLayers, CallsArePure and a negative control that drops falsy values; every (construction, override) pair is replayed against fresh objects built with the effective values.",
         "note": "Trusted: TLC; aperture weights W from the library's evaluate_probe; float32 tolerances 2e-5 "
                 "(batch invariance) / 2e-4 (linearity, recombination) relative. Nine BF pixels, scan shapes up "
                 "to 9x8; exact parallax oracle at rotation angle 0.",
@@ -318,7 +323,8 @@ CLAIMED = {
                 "0 / 1 / interior classification, the order of the outputs, the frozen limits and (linear "
                 "stretch) the values must be the model's. The abstraction premise - each concrete stretch is a "
                 "strictly increasing bijection fixing 0 and 1, and stretch o inverse = id - is checked on a "
-                "41-point grid for 17 stretch objects; all named presets run on every fifth case.",
+                "41-point grid for 17 stretch objects; all named presets run on every fifth case."
+                " A warm-up array models reuse of one normalisation object on several arrays (LimitsOfCurrentData; negative control: limits frozen by the first array).",
         "note": "The real-valued part (monotonicity of each stretch between grid points, arbitrary float "
                 "parameters) is sampled, not decided: the model decides the interval/clip/mask logic exactly and "
                 "the ORDER consequences. Trusted: TLC arithmetic; float comparison at 2e-6 (float32 inputs).",
